@@ -1,4 +1,5 @@
 import LyModel.Props.C17
+import LyModel.Props.C17L1
 #print axioms LyModel.Props.C17.ht_new_inv
 #print axioms LyModel.Props.C17.ht_inv_preserved
 #print axioms LyModel.Props.C17.ht_resizable_never_full
@@ -18,3 +19,8 @@ import LyModel.Props.C17
 #print axioms LyModel.Props.C17.dict_refcount_spec_fixed
 #print axioms LyModel.Props.C17.dict_insert_remove_cancel
 #print axioms LyModel.Props.C17.dict_balanced_empty
+#print axioms LyModel.Props.C17L1.l1_new
+#print axioms LyModel.Props.C17L1.l1_step_refines
+#print axioms LyModel.Props.C17L1.l1_refines_l2
+#print axioms LyModel.Props.C17L1.l1_first_free_in_bounds
+#print axioms LyModel.Props.C17L1.l1_fuel_sufficient
